@@ -1,5 +1,6 @@
 import ErrModel.Proofs.RoundTrip
 import ErrModel.Proofs.TextEq
+import ErrModel.Proto
 /-
   C01 — Error text and cause-tree structure survive network transfer.
 
@@ -95,5 +96,40 @@ theorem C01_engine_text_hops_partial (vf : Err → Str) (tag : Nat) (e : Err) (h
   exact ⟨e', h1, fun he' => by rw [errText_eq_text e' he', ht, errText_eq_text e he]⟩
 
 /- non-vacuity: `exE_EngOK` in Props/C09.lean (the C09 witness meets the hypothesis). -/
+
+
+/-! ## The bytes on the wire (partial)
+
+`Proto.lean` models the protobuf encoding that the generated code of /repo/errorspb writes and
+reads for `ErrorTypeMark` and for the string fields of `EncodedErrorDetails` (original type name,
+embedded mark, reportable strings): base-128 varints, length-delimited fields, proto3 omission of
+empty strings.  The model's bytes are compared with `Marshal` of the real messages for every
+layer of every generated case (stream `detbytes`).  Partial: the `Any` payload, the message /
+cause / message-type fields of `EncodedErrorLeaf` and `EncodedWrapper` and the recursion through
+`EncodedError` are not modelled at byte level (gogo's Marshal/Unmarshal of those stay in the
+trusted base, exercised by real hops). -/
+
+/-- a varint of a 64-bit value is read back, whatever follows it -/
+theorem C01_wire_varint (n : Nat) (h : n < 2 ^ 64) (rest : List UInt8) :
+    Proto.readVarint 10 (Proto.varint n ++ rest) = some (n, rest) :=
+  Proto.readVarint_varint n 10 rest (Proto.varint_length_u64 n h)
+
+/-- the type mark of a layer survives its own wire encoding, for all byte strings -/
+theorem C01_wire_mark_partial (m : TMark) (h1 : m.fam.length < 2 ^ 64) (h2 : m.ext.length < 2 ^ 64) :
+    Proto.desMark (Proto.serMark m) = some m :=
+  Proto.desMark_serMark m h1 h2
+
+/-- the type name, the mark and the safe details of a layer survive their wire encoding, for all
+    byte strings (empty ones, which proto3 omits, included) -/
+theorem C01_wire_details_partial (d : Det) (h1 : d.origType.length < 2 ^ 64) (h2 : d.mark.fam.length < 2 ^ 62)
+    (h3 : d.mark.ext.length < 2 ^ 62) (h4 : ∀ s ∈ d.rep, s.length < 2 ^ 64) :
+    Proto.desDet (Proto.serDet d) = some (d.origType, d.mark, d.rep) :=
+  Proto.desDet_serDet d h1 h2 h3 h4
+
+/-- a concrete layer: an empty extension and an empty reportable string among non-empty ones -/
+theorem C01_wire_example :
+    Proto.serDet ⟨b!"t", ⟨b!"f", []⟩, [b!"a", [], b!"bc"], .none⟩ =
+      [0x0a, 1, 116, 0x12, 3, 0x0a, 1, 102, 0x1a, 1, 97, 0x1a, 0, 0x1a, 2, 98, 99] := by
+  simp [Proto.serDet, Proto.detFields, Proto.serMark, Proto.markFields, Proto.serLD, Proto.lenField, Proto.varint, lit]
 
 end ErrModel
